@@ -28,7 +28,9 @@ Inductive bcase :=
 | BToChunks (raw : bytes) (k : N) (expected : obs bytes)
 (* the generator's "well-formed arguments" lie inside the domains of the theorems *)
 | BDomReq (ua : bytes) (a : req_args) (wf rfc : bool)
-| BDomResp (a : resp_args) (wf rfc : bool).
+| BDomResp (a : resp_args) (wf rfc : bool)
+(* the parser state of a well-formed wire message satisfies the hypotheses of the rebuild theorems *)
+| BRebuildDom (t : ptype) (raw : bytes).
 
 Definition res_obs {A} (i : N) (r : result A) : obs A :=
   match r with Ok a => OkObs a | Err e => ErrObs i (exn_code e) end.
@@ -68,4 +70,9 @@ Definition check_case (c : bcase) : bool :=
   | BToChunks raw k e => obs_eqb bytes_eqb (res_obs 0 (to_chunks raw k)) e
   | BDomReq ua a wf rfc => implb wf (wf_req_args ua a) && implb rfc (rfc_req_args ua a)
   | BDomResp a wf rfc => implb wf (wf_resp_args a) && implb rfc (rfc_resp_args a)
+  | BRebuildDom t raw =>
+      match parse (new_parser t) raw with
+      | Ok p => if is_request t then rebuildable_req p else rebuildable_resp p
+      | Err _ => false
+      end
   end.
